@@ -4,7 +4,7 @@ this model is validated against the real crate on every run, per pattern × hays
 cases of the C08 correspondence).
 
 * `Re`    – regular expressions over character classes; `Lang` their denotation (with the
-            case-insensitive flag), `fmatch` / `pmatch` an executable Brzozowski-derivative matcher for
+            case-insensitive flag: simple case folding, `caseOrbit`), `fmatch` / `pmatch` an executable Brzozowski-derivative matcher for
             `^r$` / `^r` (proved equivalent to `Lang` in Proofs/Regex.lean).
 * `parseBody` – recursive-descent parser for the text of one parenthesised group (the fragment:
             literals, `\`-escaped meta characters, `.`, classes `[a-z0-9_]` / `[^…]`, nested groups
@@ -29,18 +29,51 @@ structure Cls where
   ranges : List (Char × Char)
 deriving DecidableEq, Repr
 
-/-- ASCII case swap (the model of the engine's simple case folding; the harness only uses cased
-characters from ASCII). -/
+/-- ASCII case swap. -/
 def flipCase (c : Char) : Char :=
   if 'a' ≤ c ∧ c ≤ 'z' then Char.ofNat (c.toNat - 32)
   else if 'A' ≤ c ∧ c ≤ 'Z' then Char.ofNat (c.toNat + 32)
   else c
 
+/-- The other members of the *simple case folding* orbit of `c` (Unicode `CaseFolding.txt`, status C+S – what the
+regex crate uses for `(?i)`): ASCII, plus the non-ASCII letters the harness generates – Latin-1 letters
+(`é/É` …, except `å`, `ÿ`, `µ`, which have partners outside the block and are not generated), `ß/ẞ`, `ſ` and the
+Kelvin sign (partners of `s` / `k`), Cyrillic `а–я/А–Я`, Greek `σ/Σ/ς`, and the digraph `Ǆ/ǅ/ǆ`.  Characters
+without a simple folding partner (`İ`, `ı`, digits, CJK, emoji, …) have an empty orbit.  Validated against the crate
+by the `rx` cases of the C08 correspondence. -/
+def caseOrbit (c : Char) : List Char :=
+  let n := c.toNat
+  if 'a' ≤ c ∧ c ≤ 'z' then
+    flipCase c :: (if c = 'k' then [Char.ofNat 0x212A] else if c = 's' then [Char.ofNat 0x17F] else [])
+  else if 'A' ≤ c ∧ c ≤ 'Z' then
+    flipCase c :: (if c = 'K' then [Char.ofNat 0x212A] else if c = 'S' then [Char.ofNat 0x17F] else [])
+  else if n = 0x212A then ['k', 'K']
+  else if n = 0x17F then ['s', 'S']
+  else if n = 0xDF then [Char.ofNat 0x1E9E]
+  else if n = 0x1E9E then [Char.ofNat 0xDF]
+  -- Latin-1 Supplement: à–þ (except ÷, å) ↔ À–Þ (except ×, Å)
+  else if 0xE0 ≤ n ∧ n ≤ 0xFE ∧ n ≠ 0xF7 ∧ n ≠ 0xE5 then [Char.ofNat (n - 0x20)]
+  else if 0xC0 ≤ n ∧ n ≤ 0xDE ∧ n ≠ 0xD7 ∧ n ≠ 0xC5 then [Char.ofNat (n + 0x20)]
+  -- Cyrillic а–я ↔ А–Я
+  else if 0x430 ≤ n ∧ n ≤ 0x44F then [Char.ofNat (n - 0x20)]
+  else if 0x410 ≤ n ∧ n ≤ 0x42F then [Char.ofNat (n + 0x20)]
+  -- Greek sigma
+  else if n = 0x3C3 then [Char.ofNat 0x3A3, Char.ofNat 0x3C2]
+  else if n = 0x3A3 then [Char.ofNat 0x3C3, Char.ofNat 0x3C2]
+  else if n = 0x3C2 then [Char.ofNat 0x3C3, Char.ofNat 0x3A3]
+  -- Ǆ ǅ ǆ
+  else if n = 0x1C4 then [Char.ofNat 0x1C5, Char.ofNat 0x1C6]
+  else if n = 0x1C5 then [Char.ofNat 0x1C4, Char.ofNat 0x1C6]
+  else if n = 0x1C6 then [Char.ofNat 0x1C4, Char.ofNat 0x1C5]
+  else []
+
 def inRange (c : Char) (r : Char × Char) : Bool := decide (r.1 ≤ c) && decide (c ≤ r.2)
 
-/-- Class membership; with `ic` the class is case-folded *before* negation (as regex-syntax does). -/
+/-- Class membership; with `ic` the class is closed under simple case folding *before* negation (as regex-syntax
+does): `c` is in the folded class iff `c` or a member of its folding orbit is in the class. -/
 def Cls.mem (ic : Bool) (k : Cls) (c : Char) : Bool :=
-  (k.ranges.any (inRange c) || (ic && k.ranges.any (inRange (flipCase c)))) != k.neg
+  (k.ranges.any (inRange c) ||
+    (ic && (caseOrbit c).any fun d => k.ranges.any (inRange d))) != k.neg
 
 inductive Re where
   | none                     -- ∅
